@@ -16,6 +16,7 @@ try:
 finally:
     if patch:
         subprocess.check_call(["git", "-C", "/repo", "checkout", "--", "."])
+        C.ensure_gen()      # Generated.v must describe the unpatched tree again
 print(collections.Counter(v[1].split(' ')[0] for v in r['verdicts']), [t[:400] for t in r['tie']], ctx.get('go_wall_s'))
 seen = collections.Counter()
 for c, v, o in r['verdicts']:
